@@ -66,6 +66,7 @@ EqQ(reg, ac, a, b) ==
             IF IsMult(reg, a.u) THEN Bool(RIsZero(a.m))
             ELSE IF ac THEN LET r == ToRoot(reg, ac, a) IN IF IsOk(r) THEN Bool(RIsZero(r.m)) ELSE r
             ELSE OffErr
+        ELSE IF ~IsOk(ToRoot(reg, ac, a)) THEN ToRoot(reg, ac, a)
         ELSE IF Dimless(reg, a) THEN LET r == To(reg, ac, a, Empty) IN IF IsOk(r) THEN Bool(r.m = b.m) ELSE Bool(FALSE)
         ELSE Bool(FALSE)
     ELSE IF RIsZero(a.m) /\ RIsZero(b.m) /\ (Dev_ZeroShortcut \/ (IsMult(reg, a.u) /\ IsMult(reg, b.u)))
@@ -76,7 +77,9 @@ EqQ(reg, ac, a, b) ==
 CmpRat(op, x, y) == CASE op = "lt" -> RLt(x, y) [] op = "le" -> RLe(x, y) [] op = "gt" -> RLt(y, x) [] op = "ge" -> RLe(y, x)
 CmpQ(reg, ac, a, b, op) ==
     IF IsNum(b) THEN
-        IF Dimless(reg, a) THEN LET r == To(reg, ac, a, Empty) IN IF IsOk(r) THEN Bool(CmpRat(op, r.m, b.m)) ELSE r
+        \* `self.dimensionless` converts to root units first: a container that cannot be converted is refused there
+        IF ~IsOk(ToRoot(reg, ac, a)) THEN ToRoot(reg, ac, a)
+        ELSE IF Dimless(reg, a) THEN LET r == To(reg, ac, a, Empty) IN IF IsOk(r) THEN Bool(CmpRat(op, r.m, b.m)) ELSE r
         ELSE IF RIsZero(b.m) THEN
             IF IsMult(reg, a.u) THEN Bool(CmpRat(op, a.m, b.m))
             ELSE IF ac THEN LET r == ToRoot(reg, ac, a) IN IF IsOk(r) THEN Bool(CmpRat(op, r.m, b.m)) ELSE r
